@@ -15,6 +15,7 @@ import Hdl21Model.Import
 import Hdl21Model.Lemmas.RoundTrip
 import Hdl21Model.Lemmas.Export
 import Hdl21Model.Props.C13
+import Hdl21Model.Props.C06
 namespace Hdl21.Props.C11
 open Hdl21 Hdl21.Pkg
 
@@ -238,5 +239,151 @@ example : Shape exCtx exMod = true ∧
 
 example : exportTarget (importTarget [("a", 4), ("b", 2)] (.concat [.slice "a" 2 1, .sig "b"]))
         = .ok (.concat [.slice "a" 2 1, .sig "b"]) := by rfl
+
+
+/-! ## what the elaborator hands the exporter round-trips: the composed pass list (ModulePipe.lean) meets `module_roundtrip` -/
+section Pipeline
+open Hdl21.RoundTrip Hdl21.ExportWF Hdl21.ModulePipe Hdl21.Props.C06
+
+theorem lookupS_mem : ∀ (l : List (String × String)) (k v : String), lookupS k l = some v → (k, v) ∈ l
+  | [], k, v, h => by simp [lookupS] at h
+  | (a, b) :: rest, k, v, h => by
+    unfold lookupS at h
+    by_cases hk : a = k
+    · simp [hk] at h; subst h; subst hk; simp
+    · simp [hk] at h; exact List.mem_cons_of_mem _ (lookupS_mem rest k v h)
+
+theorem exportPorts_dirs : ∀ (l : List HSig) (q : List (String × String)), exportPorts l = .ok q → ∀ x ∈ q, x.2 ∈ protoDirs
+  | [], q, h, x, hx => by simp [exportPorts] at h; subst h; cases hx
+  | sg :: rest, q, h, x, hx => by
+    unfold exportPorts at h
+    cases hd : sg.dir.bind (lookupS · exportDirMap) with
+    | none => simp [hd] at h
+    | some d =>
+      cases hr : exportPorts rest with
+      | error e => simp [hd, hr] at h
+      | ok r =>
+        simp only [hd, hr] at h
+        injection h with h; subst h
+        rcases List.mem_cons.mp hx with rfl | hx
+        · simp only
+          cases hdir : sg.dir with
+          | none => simp [hdir] at hd
+          | some k =>
+            simp only [hdir, Option.bind_some] at hd
+            have hm := lookupS_mem exportDirMap k d hd
+            have hall : ∀ kv ∈ exportDirMap, kv.2 ∈ protoDirs := by decide
+            exact hall _ hm
+        · exact exportPorts_dirs rest r hr x hx
+
+theorem connsOK_of (ports : List String) (ws : List (String × Nat)) : ∀ (cs : List (String × PTarget)),
+    (∀ pt ∈ cs, pt.1 ∈ ports ∧ wfTarget ws pt.2 = true) → connsOK ports ws cs = true
+  | [], _ => rfl
+  | (pn, t) :: rest, h => by
+    obtain ⟨h1, h2⟩ := h (pn, t) (List.mem_cons_self ..)
+    simp [connsOK, h1, h2, connsOK_of ports ws rest (fun x hx => h x (List.mem_cons_of_mem _ hx))]
+
+
+/-- the layout `export_module` writes — internal signals `A`, then the ports' signals `B` in port order — has the `Shape` -/
+theorem shape_of_layout (ctx' : PRef → Option (List String)) (nm : String) (A B : List (String × Nat)) (q : List (String × String))
+    (ps : List PInst) (hnd : ((A ++ B).map (·.1)).Nodup) (hq : q.map (·.1) = B.map (·.1)) (hdirs : ∀ x ∈ q, x.2 ∈ protoDirs)
+    (hinst : ∀ pi ∈ ps, RoundTrip.instOK ctx' (A ++ B) pi = true) : Shape ctx' ⟨nm, A ++ B, q, ps⟩ = true := by
+  have hBnd : (B.map (·.1)).Nodup := by rw [List.map_append] at hnd; exact (List.nodup_append.mp hnd).2.1
+  have hisp : ∀ n, (q.any (fun x => x.1 == n)) = true ↔ n ∈ B.map (·.1) := by
+    intro n
+    simp only [List.any_eq_true, beq_iff_eq]
+    rw [← hq]
+    constructor
+    · rintro ⟨x, hx, rfl⟩; exact List.mem_map.mpr ⟨x, hx, rfl⟩
+    · intro hn; obtain ⟨x, hx, rfl⟩ := List.mem_map.mp hn; exact ⟨x, hx, rfl⟩
+  have hA : ∀ sw ∈ A, (q.any (fun x => x.1 == sw.1)) = false := by
+    intro sw hsw
+    cases hb : q.any (fun x => x.1 == sw.1) with
+    | false => rfl
+    | true =>
+      rw [List.map_append] at hnd
+      exact absurd rfl ((List.nodup_append.mp hnd).2.2 sw.1 (List.mem_map.mpr ⟨sw, hsw, rfl⟩) sw.1 ((hisp _).mp hb))
+  have hB : ∀ sw ∈ B, (q.any (fun x => x.1 == sw.1)) = true :=
+    fun sw hsw => (hisp _).mpr (List.mem_map.mpr ⟨sw, hsw, rfl⟩)
+  have f1 : (A ++ B).filter (fun sw => !(q.any (fun x => x.1 == sw.1))) = A := by
+    rw [List.filter_append, List.filter_eq_self.mpr (fun sw hsw => by simp [hA sw hsw]),
+      List.filter_eq_nil_iff.mpr (fun sw hsw => by simp [hB sw hsw])]
+    simp
+  have f2 : (A ++ B).filter (fun sw => q.any (fun x => x.1 == sw.1)) = B := by
+    rw [List.filter_append, List.filter_eq_nil_iff.mpr (fun sw hsw => by simp [hA sw hsw]),
+      List.filter_eq_self.mpr (fun sw hsw => hB sw hsw)]
+    simp
+  unfold Shape
+  simp only [Bool.and_eq_true, decide_eq_true_eq, List.all_eq_true, isPort, f1, f2]
+  exact ⟨⟨⟨⟨⟨hnd, by rw [hq]; exact hBnd⟩, hdirs⟩, trivial⟩, hq.symm⟩, hinst⟩
+
+/-- **Whatever the composed passes and the exporter return has the shape the round-trip theorem asks for** — so every exported
+    F1 module is imported without error and exported back identically (`module_roundtrip`), with no assumption on the package
+    other than where it came from.  (`hpar`: instances of Modules carry no parameters — hdl21 cannot write one that does.) -/
+theorem pipeline_output_roundtrips (fuel : Nat) (ctx : PRef → Option (List (String × Nat))) (h : HModule) (p : PModule)
+    (hm : ModOK ctx h) (hpar : ∀ i ∈ h.instances, ∀ n, i.ref = .loc n → i.params = [])
+    (hp : pipeline fuel ctx h = .ok p) :
+    Shape (fun r => (ctx r).map (·.map (·.1))) p = true ∧
+    ∃ m, importModule (fun r => (ctx r).map (·.map (·.1))) p = .ok m ∧ RoundTrip.exportModule m = .ok p := by
+  have hshape : Shape (fun r => (ctx r).map (·.map (·.1))) p = true := by
+    obtain ⟨hnames, _, hdir, _, hcn, hctx⟩ := hm
+    have hp0 := hp
+    unfold pipeline at hp
+    cases he : elabModule fuel ctx h with
+    | error x => simp [he] at hp
+    | ok e =>
+      simp only [he] at hp
+      obtain ⟨_, _, hs, hc', ho'⟩ := elabModule_inv he
+      obtain ⟨_, hsig, hport, hrel⟩ := sliceResolver_inv hs
+      unfold RoundTrip.exportModule at hp
+      cases h1 : exportPorts e.ports with
+      | error x => simp [h1] at hp
+      | ok q =>
+        cases h2 : exportInsts e.instances with
+        | error x => simp [h1, h2] at hp
+        | ok ps =>
+          simp only [h1, h2] at hp
+          injection hp with hp
+          subst hp
+          have hqn : q.map (·.1) = h.ports.map (·.name) := by rw [← hport]; exact exportPorts_names _ _ h1
+          have hlay : (e.signals ++ e.ports).map (fun s => (s.name, s.width)) =
+              h.signals.map (fun s => (s.name, s.width)) ++ h.ports.map (fun s => (s.name, s.width)) := by
+            rw [hsig, hport, List.map_append]
+          rw [hlay]
+          apply shape_of_layout
+          · rw [← List.map_append, List.map_map]; exact hnames
+          · rw [hqn, List.map_map]; rfl
+          · exact exportPorts_dirs _ _ h1
+          · intro pi hpi
+            obtain ⟨r, hr, x1, x2, x3, xcs⟩ := forall2_mem_right (exportInsts_spec _ _ h2) pi hpi
+            obtain ⟨i, hi, r1, r2, r3, rcs⟩ := forall2_mem_right hrel r hr
+            obtain ⟨ports, hcr, hpass⟩ := connTypes_inst hc' r hr
+            have hrnd : (r.conns.map (·.1)).Nodup := by
+              rw [forall2_map_eq (f := fun (pc : String × SConn) => pc.1) (g := fun (pc : String × SConn) => pc.1) (fun a b hr => hr.1) rcs]
+              exact hcn i hi
+            have hall := (ConnTypes.passes_iff ports r.conns (hctx _ _ hcr) hrnd).mp hpass
+            unfold RoundTrip.instOK
+            rw [x2]
+            simp only [hcr, Option.map_some, Bool.and_eq_true]
+            constructor
+            · cases hrf : r.ref with
+              | ext d n => rfl
+              | loc n =>
+                have : pi.params = [] := by rw [x3, r3]; exact hpar i hi n (by rw [← r2, hrf])
+                rw [this]
+            · apply connsOK_of
+              intro pt hpt
+              obtain ⟨pc, hpc, e1, hexp⟩ := forall2_mem_right xcs pt hpt
+              refine ⟨?_, ?_⟩
+              · rw [e1]
+                obtain ⟨pw, hpw, hpn⟩ := List.mem_map.mp (hall.2 pc hpc)
+                exact List.mem_map.mpr ⟨pw, hpw, hpn⟩
+              · have hok := orphanage_inst ho' r hr pc hpc
+                have : sigList e = h.signals.map (fun s => (s.name, s.width)) ++ h.ports.map (fun s => (s.name, s.width)) := by
+                  unfold sigList; exact hlay
+                rw [this] at hok
+                exact export_wfTarget _ pc.2 pt.2 hok hexp
+  exact ⟨hshape, module_roundtrip _ p hshape⟩
+end Pipeline
 
 end Hdl21.Props.C11
